@@ -107,10 +107,15 @@ Verify(u) ==         \* git lfs locks --verify : the cache of own locks is refre
           cacheHas |-> {}, cacheLacks |-> {}, cacheExact |-> TRUE, cacheIs |-> Walk(u),
           writableIs |-> {}, readonlyIs |-> {}, serverAfter |-> server])
 
-Hook(u) ==           \* post-checkout / post-commit / post-merge: write bits follow the cached own locks
+\* post-checkout of files, or post-merge after a merge that brought in a change to some other file: the
+\* hook has no list of changed files and sets the write bit of every lockable file from the cached own
+\* locks (kind is how the hook run comes about, never an argument of what it must leave behind)
+HookKinds == {"checkout", "merge"}
+Hook(u, kind) ==
+  /\ kind \in HookKinds
   /\ writable' = [writable EXCEPT ![u] = [p \in Paths |-> p \in cache[u] \/ (dirty[u][p] /\ writable[u][p])]]
   /\ UNCHANGED <<server, order, cache, dirty, done>>
-  /\ Log([a |-> "hook", u |-> u, p |-> "", ok |-> TRUE, force |-> FALSE, byid |-> FALSE,
+  /\ Log([a |-> "hook", kind |-> kind, u |-> u, p |-> "", ok |-> TRUE, force |-> FALSE, byid |-> FALSE,
           cacheHas |-> {}, cacheLacks |-> {}, cacheExact |-> FALSE, cacheIs |-> {},
           writableIs |-> cache[u], readonlyIs |-> {p \in Paths : p \notin cache[u]}, serverAfter |-> server])
 
@@ -134,7 +139,7 @@ Next == \E u \in Users :
           \/ \E p \in Paths : Lock(u, p) \/ Edit(u, p) \/ Push(u, p)
           \/ \E p \in Paths, f, i \in BOOLEAN : Unlock(u, p, f, i)
           \/ \E ord \in Orders : LockMany(u, ord) \/ \E f \in BOOLEAN : UnlockMany(u, ord, f)
-          \/ Verify(u) \/ Hook(u)
+          \/ Verify(u) \/ \E k \in HookKinds : Hook(u, k)
 Spec == Init /\ [][Next]_vars
 
 \* ---- C16 on the design ---------------------------------------------------------
